@@ -38,3 +38,8 @@ add("C08","exploration",
  "Held on the generated (tree, rules, request) triples counted in the evidence; both directions (allowed served, denied discloses nothing).",
  "Trusted: filepath.EvalSymlinks/Abs/Glob, Go regexp; static layouts (no TOCTOU claim).",
  "DESIGN.md §2 C08")
+add("C09","exploration",
+ "runtime monitoring: seeded authorized_keys/credential generator; real SSH handshakes (x/crypto/ssh client in the harness, chosen source addresses) against an in-process dtail server whose key files are rewritten between attempts; oracle = the statement's acceptance rule; health sessions are fed commands and their byte stream is scanned for file content",
+ "Held on the generated key files (incl. multi-revision sequences with preserved/older mtime), the full password x user x source address grid, and the health sessions counted in the evidence.",
+ "Trusted: x/crypto/ssh (shared by harness and subject); CRLF and junk lines are outside 'well-formed'.",
+ "DESIGN.md §2 C09")
